@@ -24,6 +24,8 @@ def bshape(co=("param", "coordinates")):
 
 def reshape_target(t):
     """(inner, shape) if t is inner.reshape(shape) / np.reshape(inner, shape)"""
+    if Q.reshape_of(t) is not None:
+        return Q.reshape_of(t)
     if t[0] == "call" and t[1][0] == "attr" and t[1][2] == "reshape" and len(t[2]) == 1:
         return t[1][1], t[2][0]
     if t[0] == "call" and callee(t) == "numpy.reshape" and len(t[2]) == 2:
@@ -108,9 +110,9 @@ def r1_kneighbors(ctx):
             gi, gshape = reshape_target(vals) if vals is not None else (None, None)
             if gi is not None and gi[0] == "sub" and gi[1] == Q.self_attr("data_"):
                 ok_data = True
-                idx = Q.unwrap(gi[2], funcs={"numpy.atleast_2d"}, methods={"ravel"})
+                idx = Q.unwrap(gi[2], funcs={"numpy.atleast_2d", "numpy.ravel"}, methods={"ravel"})
                 while idx[0] == "attr" and idx[2] == "T":
-                    idx = Q.unwrap(idx[1], funcs={"numpy.atleast_2d"}, methods={"ravel"})
+                    idx = Q.unwrap(idx[1], funcs={"numpy.atleast_2d", "numpy.ravel"}, methods={"ravel"})
                 if idx[0] == "sub" and idx[1] == q and is_int(idx[2]):
                     ok_idx = True if idx[2][1] == 1 else False
             elif gi is not None and gi[0] == "sub":
